@@ -2,6 +2,7 @@
 #define PAYLOAD_LITERAL
 #define PAYLOAD_TABCHAR
 #define PAYLOAD_COLLECTION
+#define PAYLOAD_TUPLE
 #define HAVE_STD_STRING
 #define CONTAINERS_MODEL
 /* the table a member method receives is uniform: its (ghost) element has exactly the element type
@@ -36,9 +37,9 @@ PROP(C09) __CPROVER_ensures((g_eval_n >= 2 && (V_ISNULL(RCV) || V_ISNULL(POS))) 
 PROP(C09) __CPROVER_ensures((g_eval_n == 3 && IS_TABLE(RCV) && POS_INT && (V_I(POS) < 0 || (unsigned long)V_I(POS) >= g_eval_size[0])) ==> (THROWN_RT(EXC_RT_INDEX_RANGE_S) && ELEM_UNCHANGED))
 /* tables: whatever happens, the table stays uniform and keeps its length */
 PROP(C09) __CPROVER_ensures((g_eval_n == 3 && IS_TABLE(RCV)) ==> (ELEM_INV(COLL) && TAB_SIZE(COLL) == g_eval_size[0]))
-/* tables: success returns the receiver; failure is INDEX_RANGE or TYPE_MISMATCH and leaves the element alone */
+/* tables: success returns the receiver; failure is INDEX_RANGE, TYPE_MISMATCH or (decimal beyond the integer range) OUT_OF_RANGE and leaves the element alone */
 PROP(C09) __CPROVER_ensures((g_eval_n == 3 && IS_TABLE(RCV) && OK) ==> RET == O1)
-PROP(C09) __CPROVER_ensures((g_eval_n == 3 && IS_TABLE(RCV) && POS_INT && !OK) ==> ((THROWN_RT(EXC_RT_INDEX_RANGE_S) || THROWN_RT(EXC_RT_TYPE_MISMATCH_S)) && ELEM_UNCHANGED))
+PROP(C09) __CPROVER_ensures((g_eval_n == 3 && IS_TABLE(RCV) && POS_INT && !OK) ==> ((THROWN_RT(EXC_RT_INDEX_RANGE_S) || THROWN_RT(EXC_RT_TYPE_MISMATCH_S) || THROWN_RT(EXC_RT_OUT_OF_RANGE)) && ELEM_UNCHANGED))
 /* strings and bytes: position checked, code outside 0..255 rejected with OUT_OF_RANGE */
 PROP(C09, C10) __CPROVER_ensures((g_eval_n == 3 && (V_IS(RCV, LITERAL) || V_IS(RCV, TABCHAR)) && !V_ISNULL(RCV) && POS_INT && V_I(POS) >= 0 && (unsigned long)V_I(POS) < g_eval_size[0] && V_IS(ARG, INTEGER) && !V_ISNULL(ARG) && (V_I(ARG) < 0 || V_I(ARG) > 255)) ==> THROWN_RT(EXC_RT_OUT_OF_RANGE))
 PROP(C09) __CPROVER_ensures((g_eval_n == 3 && (V_IS(RCV, LITERAL) || V_IS(RCV, TABCHAR)) && !V_ISNULL(RCV) && POS_INT && (V_I(POS) < 0 || (unsigned long)V_I(POS) >= g_eval_size[0])) ==> THROWN_RT(EXC_RT_INDEX_RANGE_S))
